@@ -114,6 +114,9 @@ class HashedIterable(Generic[T]):
         """
         yield from self.values.values()
         for v in self.iterable:
+            if v.id_ in self.values:
+                # an element the domain lists again is not a new element
+                continue
             self.values[v.id_] = v
             yield v
 
